@@ -61,8 +61,8 @@ class SE:
     # ------------------------------------------------------------------ basics
     def none(self): return R(self.ctx.null)
 
-    def sat(self, st):
-        s = SimpleSolver(); s.set('timeout', self.sat_timeout); s.set('mbqi', False)
+    def sat(self, st, strong=False):
+        s = SimpleSolver(); s.set('timeout', self.sat_timeout * (10 if strong else 1)); s.set('mbqi', False)
         s.add(self.ctx.axioms); s.add(st.pc)
         self.nsat += 1
         r = s.check()
